@@ -27,7 +27,7 @@ Flush ==
     /\ phase' = "dec"
     /\ UNCHANGED <<inp, est, dst>>
 
-Stream == UnpackBytes(PackBits(est.bits))          \* what the decoder sees: whole bytes, zero padded
+Stream == FromBytes(PackBits(est.bits))          \* what the decoder sees: whole bytes, zero padded
 
 Decode ==
     /\ phase = "dec" /\ Len(dst.o) < Len(inp)
